@@ -95,9 +95,14 @@ Definition spec_ok (c : case) : bool :=
                      | OOk a' =>
                          match owner d (a' / 65536) with
                          | Some r' =>
-                             (* same range unless that bank was re-assigned by a later map *)
+                             (* the result has offset p + n in the source range; when its bank belongs to the
+                                same range this is its real file offset ("in the same primary/mirror range").  A
+                                bank of the source range that a LATER map re-assigned (HiROM 0x7E/0x7F, owned by
+                                the RAM mapping) is not "inside the mapped range" of the quantifier: the code
+                                accepts such an advance silently (Proofs/CoversSub.v, bus_advance_leaves) and
+                                nothing is asserted about it here. *)
                              match sr_offset r a' with
-                             | Some q => (q =? p + n) && ((negb (sr_eqb r r')) || true)
+                             | Some q => q =? p + n
                              | None => false
                              end
                          | None => false
